@@ -439,6 +439,22 @@ func (c *Ctx) isWhitespaceErrVar(g *ssa.Global) bool {
 
 func (c *Ctx) trimFns() (left, right []*ssa.Function) {
 	sw := c.skipWS()
+	// the parser functions of the two exported constructors, however they are written
+	lb, rb := c.builtBy("text.LeftTrim"), c.builtBy("text.RightTrim")
+	if len(lb) > 0 && len(rb) > 0 {
+		for _, fn := range c.S.Sorted(c.S.Parser) {
+			if lb[fn] {
+				left = append(left, fn)
+			}
+			if rb[fn] {
+				right = append(right, fn)
+			}
+		}
+		if len(left) > 0 && len(right) > 0 {
+			return
+		}
+		left, right = nil, nil
+	}
 	for _, fn := range c.S.ParseRoots {
 		if fn.Synthetic != "" || fn.Parent() == nil || sw == nil {
 			continue
@@ -506,6 +522,12 @@ func (c *Ctx) ruleR10c(rule string) {
 			continue
 		}
 		_, modeIsCaptured := freeVarLoad(skip.Call.Args[2])
+		if !modeIsCaptured && fn.Signature.Recv() != nil {
+			// a helper object instead of a closure: the mode is a field of the receiver
+			if base, _, isLoad := fieldLoad(ssax.Strip(skip.Call.Args[2])); isLoad && (base == ssa.Value(fn.Params[0]) || isRecvSpill(fn, base)) {
+				modeIsCaptured = true
+			}
+		}
 		_, _, wpos := ssax.ParseArgs(w)
 		if skip.Call.Args[1] != ssa.Value(P) || !modeIsCaptured || !isExtractOf(wpos, skip, 0) {
 			c.R.Violation(rule, name+" skip/call wiring", name, c.P.InstrPos(w), "the sub-parser is not called at the position returned by SkipWhitespaces(own pos, the constructor's wsMode): the token would not start right after the permitted whitespace")
@@ -633,10 +655,47 @@ func (c *Ctx) ruleR10d(rule string) {
 				set = cl
 			}
 		}
+		setFn := fn
+		nodeOK := set != nil && isExtractOf(set.Call.Args[0], w, 0)
+		var errFromHelper ssa.Value
+		if w != nil && set == nil {
+			// the end may be moved by a helper that is handed the sub-parser's node
+			for _, call := range ssax.Calls(fn) {
+				hc, ok := call.(*ssa.Call)
+				if !ok || hc.Call.IsInvoke() {
+					continue
+				}
+				h := hc.Call.StaticCallee()
+				if h == nil || !c.P.InLib(h) || len(h.Blocks) == 0 {
+					continue
+				}
+				for _, k := range ssax.Calls(h) {
+					kc, ok := k.(*ssa.Call)
+					if !ok || kc.Call.StaticCallee() == nil || c.name(kc.Call.StaticCallee()) != "ast.SetReaderPos" {
+						continue
+					}
+					for i, hp := range h.Params {
+						if kc.Call.Args[0] == ssa.Value(hp) && i < len(hc.Call.Args) && isExtractOf(hc.Call.Args[i], w, 0) {
+							set, setFn, nodeOK = kc, h, true
+							// the helper's error result as RightTrim sees it
+							if tup, ok := hc.Type().(*types.Tuple); ok {
+								for ri := 0; ri < tup.Len(); ri++ {
+									if isErrorType(tup.At(ri).Type()) {
+										for _, e := range ssax.Extracts(hc, ri) {
+											errFromHelper = e
+										}
+									}
+								}
+							}
+						}
+					}
+				}
+			}
+		}
 		if w == nil || set == nil {
 			continue
 		}
-		if !isExtractOf(set.Call.Args[0], w, 0) {
+		if !nodeOK {
 			c.R.Violation(rule, name+" trims another node", name, c.P.InstrPos(set), "ast.SetReaderPos is applied to something else than the sub-parser's result")
 		}
 		mc, ok := set.Call.Args[1].(*ssa.MakeClosure)
@@ -721,7 +780,7 @@ func (c *Ctx) ruleR10d(rule string) {
 				}
 			}
 		}
-		isErrLoad := func(v ssa.Value) bool {
+		isErrLoadIn := func(v ssa.Value) bool {
 			u, ok := ssax.Strip(v).(*ssa.UnOp)
 			if !ok || u.Op != token.MUL || errLoc == nil {
 				return false
@@ -731,6 +790,23 @@ func (c *Ctx) ruleR10d(rule string) {
 			}
 			fa, ok := u.X.(*ssa.FieldAddr)
 			return ok && fa.X == errLoc && fa.Field == errField
+		}
+		isErrLoad := isErrLoadIn
+		if setFn != fn {
+			// the helper hands the recorded error back; RightTrim sees it as that result of the call
+			handsBack := errFromHelper != nil
+			for _, r := range ssax.Returns(setFn) {
+				found := false
+				for _, rv := range r.Results {
+					if isErrLoadIn(rv) {
+						found = true
+					}
+				}
+				if !found {
+					handsBack = false
+				}
+			}
+			isErrLoad = func(v ssa.Value) bool { return handsBack && ssax.Strip(v) == errFromHelper }
 		}
 		// on a whitespace error: (nil, _, wsErr)
 		okErr := false
